@@ -50,6 +50,7 @@ RoundTrip ==
              /\ Matches(Decode(e.s), unit)
              /\ Unambiguous(e.s, unit)
              /\ ShellSafe(CodeOf[KvSep(e.s)])
+             /\ EnvLineSafe(CodeOf[KvSep(e.s)])
 
 EncodeFailsOnlyIfStuck ==
   ~Encode(unit, Cands).ok => Cardinality({ i \in 1..Len(Cands) : Free(Cands[i], unit) }) < 2
